@@ -17,7 +17,7 @@ Init == ci = 1
 Next == /\ ci <= N
         /\ LET c == Cases[ci] s == Schemas[c.sid] IN
            LET v == ExpandV(c.value) b == EncStructV(s, v, c.var) IN
-           PrintT(ToJson([id |-> c.id, wt |-> WellTyped(s, v), n |-> Len(b), b |-> ToRuns(b)]))
+           PrintT(ToJson([id |-> c.id, wt |-> WellTyped(s, v), n |-> Len(b), b |-> PrintBytes(b)]))
         /\ ci' = ci + 1
 Spec == Init /\ [][Next]_ci
 AllEncoded == TLCGet("stats").diameter >= N
